@@ -1,4 +1,48 @@
-(* C18 placeholder, replaced below *)
-From RV Require Import Model.Mapping.
-Theorem C18_placeholder : True. Proof. exact I. Qed.
-Eval cbv in "ASSUMPTIONS-OF C18_placeholder"%string. Print Assumptions C18_placeholder.
+(* C18  Node metadata matches how the node was discovered.  Statements only; proofs in
+   Proofs/MetaFacts.v about Model/Node.v (as_reclass; render_node computes name, uri and the
+   parts passed in).  The node name/uri/environment fields and the referencability of
+   _reclass_ are compared with a Python reading of the property on every run. *)
+From RV Require Import Model.Node Proofs.MetaFacts.
+
+(** The injected parameter: environment base, name {full, parts, path, short} with path = parts
+    joined by "/", short = last part. *)
+Theorem C18_reclass_parameter :
+  forall cfg meta, m_parts meta <> [] ->
+    as_reclass cfg meta = Ok (reclass_of (m_name meta) (meta_parts cfg meta)).
+Proof. exact as_reclass_spec. Qed.
+Eval cbv in "ASSUMPTIONS-OF C18_reclass_parameter"%string. Print Assumptions C18_reclass_parameter.
+
+(** literal-dots compatibility flag (with composition): the name split at dots *)
+Theorem C18_parts_with_literal_dots_flag :
+  forall cfg meta, m_parts meta <> [] -> c_compose cfg = true -> c_literal_dots cfg = true ->
+    meta_parts cfg meta = split_on "." (m_name meta).
+Proof. exact parts_literal_dots. Qed.
+Eval cbv in "ASSUMPTIONS-OF C18_parts_with_literal_dots_flag"%string. Print Assumptions C18_parts_with_literal_dots_flag.
+
+(** below a directory starting with _ only the last segment *)
+Theorem C18_parts_below_underscore_directory :
+  forall cfg meta p0 rest, m_parts meta = p0 :: rest -> c_compose cfg && c_literal_dots cfg = false ->
+    starts_with_underscore p0 = true -> meta_parts cfg meta = [last_seg (p0 :: rest)].
+Proof. exact parts_underscore. Qed.
+Eval cbv in "ASSUMPTIONS-OF C18_parts_below_underscore_directory"%string. Print Assumptions C18_parts_below_underscore_directory.
+
+(** otherwise the node's path segments (the name alone without composition) *)
+Theorem C18_parts_are_path_segments :
+  forall cfg meta p0 rest, m_parts meta = p0 :: rest -> c_compose cfg && c_literal_dots cfg = false ->
+    starts_with_underscore p0 = false -> meta_parts cfg meta = p0 :: rest.
+Proof. exact parts_plain. Qed.
+Eval cbv in "ASSUMPTIONS-OF C18_parts_are_path_segments"%string. Print Assumptions C18_parts_are_path_segments.
+
+(** metadata can only fail for a node without any path segment *)
+Theorem C18_fails_only_without_parts :
+  forall cfg meta, m_parts meta = [] -> as_reclass cfg meta = Err EMetaParts.
+Proof. exact as_reclass_fails_only_without_parts. Qed.
+Eval cbv in "ASSUMPTIONS-OF C18_fails_only_without_parts"%string. Print Assumptions C18_fails_only_without_parts.
+
+Example C18_nonvacuous :
+  as_reclass {| c_ignore := false; c_matches := []; c_compose := true; c_literal_dots := false |}
+             {| m_name := "a.web.prod"; m_uri := ""; m_parts := ["a"; "web.prod"] |}
+  = Ok (reclass_of "a.web.prod" ["a"; "web.prod"]) /\
+  meta_parts {| c_ignore := false; c_matches := []; c_compose := true; c_literal_dots := true |}
+             {| m_name := "a.web.prod"; m_uri := ""; m_parts := ["a"; "web.prod"] |} = ["a"; "web"; "prod"].
+Proof. split; reflexivity. Qed.
